@@ -92,11 +92,11 @@ class ScoringScheme:
         # copy the penalties in a new List of List of floats
         penalties_copy: List[List[float]] = [[], []]
         for pen in penalties[0]:
-            if (not isinstance(pen, float) and not isinstance(pen, int)) or pen < 0:
+            if (not isinstance(pen, float) and not isinstance(pen, int)) or not 0 <= pen < float("inf"):
                 raise NonRealPositiveValuesScoringScheme()
             penalties_copy[0].append(float(pen))
         for pen in penalties[1]:
-            if (not isinstance(pen, float) and not isinstance(pen, int)) or pen < 0:
+            if (not isinstance(pen, float) and not isinstance(pen, int)) or not 0 <= pen < float("inf"):
                 raise NonRealPositiveValuesScoringScheme()
             penalties_copy[1].append(float(pen))
 
